@@ -33,7 +33,7 @@ def main():
     runre = "^(" + "|".join(tests) + ")$"
 
     # hide OUT from ./... (test files in OUT would be compiled as a package)
-    hidden = out + ".hidden"
+    hidden = wt + ".OUT.hidden"
     run("git checkout -- . && git clean -fdq -e OUT -e OUT.hidden", wt)
     demo_dst = os.path.join(wt, sub, "zz_seed_demo_test.go")
 
